@@ -121,7 +121,7 @@ def raised(repo, rep, rid, cfgs=None, sims=SIMS) -> set:
 
 
 # ---------------------------------------------------------------------------------------------------- rules
-def check_cover(repo, rep, rid, cfgs=None, sims=SIMS):
+def check_cover(repo, rep, rid, cfgs=None, sims=SIMS, clock=False):
     """S1: every symbol's minutes are fed to the matcher exactly once, in order, minute-major across symbols"""
     n = 0
     skip = raised(repo, rep, rid, cfgs, sims)
@@ -131,6 +131,14 @@ def check_cover(repo, rep, rid, cfgs=None, sims=SIMS):
         syms = tuple(cfg["symbols"]) + tuple(cfg.get("data_symbols", ()))
         calls = [(e[1], e[2], e[3]) for e in ses.events if e[0] == "match"]
         want = list(range(cfg["minutes"]))
+        # the normal simulator advances the clock to the END of the minute before it stores and matches it (the hooks of a fill are
+        # stamped with the minute they belong to; the fast matcher sets the clock itself, rule C12-R5 / C01-R6)
+        if clock and sim == "_step_simulator":
+            late = [(e[1], e[2], e[5]) for e in ses.events if e[0] == "match" and len(e) > 5 and e[5] is not None and e[5] != e[2] + 1]
+            if late:
+                sy, m, c = late[0]
+                rep.violation(rid, f"{sim}|clock", f"{sim} ({name}): minute {m} of {sy} is matched while the clock stands at minute {c} of the session (expected {m + 1}, the end of "
+                                                   f"that minute): hooks of its fills carry the wrong time")
         cover = {}
         for s, m0, ln in calls:
             cover.setdefault(s, []).extend(range(m0, m0 + ln))
